@@ -1104,8 +1104,11 @@ fn check_state(mem: &mut Mem, t: &Tree, m: &Model, probes: &[Vec<u8>], w: &mut W
         viols.push(V { prop: "C28", oracle: "content", class: format!("model>{class}"), expected: format!("{} entries equal to the model", m.map.len()), observed: detail, blocking: true });
         content_ok = false;
     }
-    // ---- get(k) for every alphabet key
+    // ---- get(k) for every alphabet key (skipped when the raw content already differs: derived)
     for k in probes {
+        if !content_ok && viols.iter().any(|v| v.oracle == "content") {
+            break;
+        }
         let want = m.map.get(k).copied();
         let root = t.root;
         let got = vcore::catch(|| -> Result<Option<Option<Val>>, String> {
@@ -1495,6 +1498,10 @@ fn do_transition(mem: &mut Mem, tree: &mut Tree, model: &mut Model, hm: HintMode
         if !sr.content_ok {
             prune = true;
         }
+        if viols.iter().any(|(v, _, _)| v.oracle == "err-unchanged") {
+            // the lost/added key is the defect; the Err return value is its symptom
+            viols.retain(|(v, _, _)| v.oracle != "ret");
+        }
     }
     let mut o = Outcome { lab, res, viols, prune, h, new_leaf: 0, new_interior: 0, new_root: tree.root != root0, leaked: 0 };
     for p in pc0..mem.pages.len() {
@@ -1657,9 +1664,11 @@ impl C28 {
             }
         }
         let mut capped = false;
+        let timing = ctx.opt("timing").is_some();
         for level in 0..=maxd {
             let mut out: Vec<Vec<u8>> = vec![Vec::new(); x.n];
             let mut done = 0usize;
+            let t_lvl = Instant::now();
             for rec in &frontier {
                 if ctx.expired() {
                     capped = true;
@@ -1672,7 +1681,11 @@ impl C28 {
             if capped {
                 rep.capped(&format!("deadline while expanding BFS level {level} ({done} of {} owned states done); all lower levels are complete", frontier.len()));
             }
+            let t_proc = t_lvl.elapsed();
             if level == maxd {
+                if timing {
+                    eprintln!("w{} level {level}: {} states, process {:?}", x.me, frontier.len(), t_proc);
+                }
                 break;
             }
             let (incoming, any) = match x.exchange(level + 1, out, capped, ctx.deadline) {
@@ -1687,6 +1700,9 @@ impl C28 {
                     rep.capped(&format!("another worker hit the deadline at BFS level {level}"));
                 }
                 return;
+            }
+            if timing {
+                eprintln!("w{} level {level}: {} states, process {:?}, +exchange {:?}, in {} KB", x.me, frontier.len(), t_proc, t_lvl.elapsed(), incoming.iter().map(|b| b.len()).sum::<usize>() / 1024);
             }
             // next frontier: unseen states, canonical (smallest) op list per state
             let mut cand: HMap<Rec> = HMap::default();
